@@ -7,9 +7,14 @@
           | :s <ms>           directive, not an operation: the thread's next operation rests <ms> milliseconds inside the locked
                               region.  The model has no clock: here the directive becomes a stretch of the schedule in which that
                               thread is taken into the locked region and then every other thread is given turns.
-   The schedule the model runs is derived from <seed> (and the :s directives) here; any schedule gives the same observation
+          | :e <n> sw*n       epoch boundary (an item of every thread's script, the same number in each): all threads finish
+                              what comes before, the test thread flips the switches sw (0 turnOff, 1 turnOnDefaultNotThreadSafe,
+                              2 turnOnThreadSafe, 3 saveAndDisable, 4 restore; only thread 0 may name any) and probes every entry
+                              point, then all threads go on.  On thread 0 a new epoch is a new test.
+   The schedules the model runs are derived from <seed> (and the :s directives) here; any schedules give the same observation
    (C10_schedule_independent).
-   Observation:  :ok <ntests> verdict* <wfail> <adv> <distinct> <foreign> <rest> <overlap> <n> (<thread> <slot> <size>)*n   |   :hang *)
+   Observation:  :ok <ntests> verdict* <wfail> <adv> <distinct> <foreign> <rest> <overlap> <n> (<thread> <slot> <size>)*n
+                     <nepochs> (<calls> <locked>)*nepochs   |   :hang *)
 let alloc_entry = function
   | 0 -> ENew | 1 -> ENewNothrow | 2 -> ENewDebug | 3 -> ENewArr | 4 -> ENewArrNothrow | 5 -> ENewArrDebug | 6 -> EMalloc
   | i -> raise (Bad (Printf.sprintf "allocating entry %d" i))
@@ -29,8 +34,23 @@ let op c =
              | 1 | 2 | 3 -> ORefused (k, RUnderlying)
              | i -> raise (Bad (Printf.sprintf "refused realloc kind %d" i)))
   | t -> raise (Bad ("op " ^ t))
-(* an item of a script: an operation, or the directive :s <ms> *)
-let item c = if peek c = Some ":s" then (ignore (next c); ignore (int_tok (next c)); None) else Some (op c)
+let swop = function
+  | 0 -> SwOff | 1 -> SwDefault | 2 -> SwSafe | 3 -> SwSave | 4 -> SwRestore | i -> raise (Bad (Printf.sprintf "switch %d" i))
+(* an item of a script: an operation, the directive :s <ms>, or an epoch boundary with its switches *)
+type item = Op of op | Rest | Epoch of swop list
+let item c =
+  match peek c with
+  | Some ":s" -> ignore (next c); ignore (int_tok (next c)); Rest
+  | Some ":e" -> ignore (next c); Epoch (counted c (fun c -> swop (int_tok (next c))))
+  | _ -> Op (op c)
+(* a thread's items cut at the epoch boundaries: (switches in front of the part, its items as Some op | None = :s) *)
+let cut its =
+  let rec go sw acc = function
+    | [] -> [ (sw, List.rev acc) ]
+    | Epoch l :: r -> (sw, List.rev acc) :: go l [] r
+    | Op o :: r -> go sw (Some o :: acc) r
+    | Rest :: r -> go sw (None :: acc) r in
+  go [] [] its
 (* micro-steps thread t needs on its own to stand inside the locked region of its j-th operation (exact for scripts without
    misuse; any number gives a legitimate schedule) *)
 let steps_into ops j =
@@ -65,22 +85,36 @@ let scenario ts =
   let c = { rest = ts } in
   let seed = int_tok (next c) land 0xfffffff in
   let oa = bool_tok (next c) in
-  let items = counted c (fun c -> counted c item) in
+  let threads = List.map cut (counted c (fun c -> counted c item)) in
   if not (at_end c) then raise (Bad "trailing tokens");
-  let scripts = List.map (List.filter_map (fun x -> x)) items in
-  let nops = List.fold_left (fun a s -> a + List.length s) 0 scripts in
-  { sc_outalloc = oa; sc_scripts = scripts; sc_sched = stall_schedule items @ schedule seed (List.length scripts) nops }
+  (match threads with
+   | [] -> raise (Bad "no thread")
+   | t0 :: ws ->
+       List.iter (fun w -> if List.length w <> List.length t0 then raise (Bad "threads disagree on the number of epochs");
+                           List.iter (fun (sw, _) -> if sw <> [] then raise (Bad "switches on a worker thread")) w) ws);
+  let nep = List.length (List.hd threads) in
+  (* epoch e: (switches, items per thread) *)
+  let epoch e = (fst (List.nth (List.hd threads) e), List.map (fun t -> snd (List.nth t e)) threads) in
+  let sched e items =
+    let scripts = List.map (List.filter_map (fun x -> x)) items in
+    let nops = List.fold_left (fun a s -> a + List.length s) 0 scripts in
+    (scripts, stall_schedule items @ schedule (if seed = 0 then 0 else seed + 7919 * e) (List.length scripts) nops) in
+  let (scripts0, sched0) = sched 0 (snd (epoch 0)) in
+  { sc_outalloc = oa; sc_scripts = scripts0; sc_sched = sched0;
+    sc_more = List.init (nep - 1) (fun i -> let (sw, items) = epoch (i + 1) in let (scr, sch) = sched (i + 1) items in
+                                            { ep_sw = sw; ep_scripts = scr; ep_sched = sch }) }
 let pobs o =
   if not o.o_done then ":hang" else
   let ents = List.sort compare (List.map (fun ((t, k), z) -> (int_of_nat t, int_of_nat k, pn z)) o.o_entries) in
   String.concat " " ([":ok"; Printf.sprintf "%x" (List.length o.o_verdicts)] @ List.map pbool o.o_verdicts
                      @ [pn o.o_wfail; pn o.o_adv; pbool o.o_distinct; pn o.o_foreign; pn o.o_rest; pn o.o_overlap; Printf.sprintf "%x" (List.length ents)]
-                     @ List.concat_map (fun (t, k, z) -> [Printf.sprintf "%x" t; Printf.sprintf "%x" k; z]) ents)
+                     @ List.concat_map (fun (t, k, z) -> [Printf.sprintf "%x" t; Printf.sprintf "%x" k; z]) ents
+                     @ [Printf.sprintf "%x" (List.length o.o_epochs)] @ List.concat_map (fun (a, b) -> [pn a; pn b]) o.o_epochs)
 let run_line ts =
   let s = scenario ts in
   if not (valid s) then raise (Bad "scenario is not valid (allocation into a held slot, overrun of an empty slot, misuse on a worker thread, ...)")
   else pobs (run s)
-let hung = { o_done = false; o_verdicts = []; o_wfail = N0; o_adv = N0; o_distinct = false; o_foreign = N0; o_rest = N0; o_overlap = N0; o_entries = [] }
+let hung = { o_done = false; o_verdicts = []; o_wfail = N0; o_adv = N0; o_distinct = false; o_foreign = N0; o_rest = N0; o_overlap = N0; o_entries = []; o_epochs = [] }
 let spec_line ts os =
   let s = scenario ts in
   if not (valid s) then true else
@@ -91,6 +125,8 @@ let spec_line ts os =
       let wf = n_tok (next c) in let adv = n_tok (next c) in let d = bool_tok (next c) in
       let fo = n_tok (next c) in let re = n_tok (next c) in let ov = n_tok (next c) in
       let ents = counted c (fun c -> let t = nat_tok (next c) in let k = nat_tok (next c) in ((t, k), n_tok (next c))) in
+      let eps = counted c (fun c -> let a = n_tok (next c) in (a, n_tok (next c))) in
       if not (at_end c) then false else
-      spec s { o_done = true; o_verdicts = v; o_wfail = wf; o_adv = adv; o_distinct = d; o_foreign = fo; o_rest = re; o_overlap = ov; o_entries = ents }
+      spec s { o_done = true; o_verdicts = v; o_wfail = wf; o_adv = adv; o_distinct = d; o_foreign = fo; o_rest = re; o_overlap = ov; o_entries = ents;
+               o_epochs = eps }
   | _ -> spec s hung
